@@ -27,10 +27,15 @@ var c17Scripts = [][]rune{
 	[]rune("αβγδεζηθλμπσω"),
 	[]rune("абвгдежзиклмн"),
 	[]rune("日本語中文字漢字仮名"),
+	[]rune("%!?$&*()_+.,;:'/\\<>@#^~{}|=09ds"), // punctuation (no hyphen: a hyphen at a line end marks a hard break)
 }
 
 func c17Word(t *rapid.T, label string, min, max int) string {
-	sc := c17Scripts[weighted(t, label+"Script", []int{50, 12, 12, 12, 14})]
+	w := []int{50, 12, 12, 12, 14, 0}
+	if label == "w" {
+		w[5] = 8 // punctuation only inside descriptions
+	}
+	sc := c17Scripts[weighted(t, label+"Script", w)]
 	n := rapid.IntRange(min, max).Draw(t, label+"Len")
 	var sb strings.Builder
 	for i := 0; i < n; i++ {
@@ -100,6 +105,10 @@ func (g *c17Gen) opt(used map[string]bool) Opt {
 	}
 	if rapid.IntRange(0, 9).Draw(t, "hasDesc") < 8 {
 		o.Desc = g.desc(fmt.Sprintf("Mk%dq", g.n))
+	}
+	if !o.Kind.IsFlag() && rapid.IntRange(0, 4).Draw(t, "optionalArg") == 0 {
+		o.Optional = "yes"
+		o.OptVals = []string{"ov"}
 	}
 	if rapid.IntRange(0, 19).Draw(t, "hidden") == 0 {
 		o.Hidden = "yes"
